@@ -4,7 +4,7 @@ import os
 
 from hypothesis import strategies as st
 
-from vf.api import Kind, Outcome, check, ok, trivial, violation
+from vf.api import Kind, Outcome, check, ok, rejected, trivial, violation
 from vf.lib import c37_refs as cr
 from vf.lib.c37_refs import NAMES, ZERO, sha
 from vf.seam import ft
@@ -149,6 +149,11 @@ def run_sequential(case, env):
     noted = []
     for i, (op, who) in enumerate(zip(case["ops"], case["who"])):
         refs = conts[who]
+        if max(model.hops(n) for n in NAMES) > 4:
+            # dulwich's follow() refuses chains of more than five reads
+            # (SymrefLoop) as soon as the last name exists: a documented guard,
+            # outside what the property quantifies over
+            return rejected("symref chain deeper than dulwich's follow limit")
         if op[0] == "fresh":
             refs = conts[who] = cr.container(t)
             if dul is not None:
@@ -520,7 +525,10 @@ def seq_case(draw):
             packed.append([idx, draw(st.integers(0, 3))])
         if k == "sym":
             # only to later names: chains, no loops
-            loose.append([idx, "sym", draw(st.integers(idx + 1, n - 1))])
+            # HEAD skips one name: the longest chain has four hops (dulwich
+            # refuses to follow more than five reads)
+            loose.append([idx, "sym", draw(st.integers(max(idx + 1, 2),
+                                                       n - 1))])
     ops = []
     focus = draw(st.integers(0, n - 1))
     for _ in range(draw(st.integers(1, 7))):
@@ -539,7 +547,8 @@ def seq_case(draw):
         elif kind == "sym":
             if idx == n - 1:
                 idx = 0
-            ops.append(["sym", idx, draw(st.integers(idx + 1, n - 1))])
+            ops.append(["sym", idx, draw(st.integers(max(idx + 1, 2),
+                                                     n - 1))])
         else:
             ops.append(["fresh"])
     # two long-lived containers take turns (each keeps its packed-refs cache)
